@@ -94,7 +94,7 @@ theorem applyRR_other {c : Cfg} {z : Zone} {rr : Rec} (hz : rr.cls ≠ c.zclass)
   unfold applyRR; rw [if_neg hz, if_neg ha, if_neg hn]
 
 /-- `pre_scan` and the "delete an RRset" arm of `update_records` accept exactly the same RDATA as
-"empty" (`Update0 | NULL(..)` at both sites): what the prescan lets through on that account the
+"empty" (`Update0` at both sites since 4a0d3cb): what the prescan lets through on that account the
 loop does not refuse.  (If the two sites drift apart, an RR passes the prescan, is written to the
 journal and then makes `update_records` — and every later recovery — fail.) -/
 theorem prescan_empty_eq_apply_empty (r : Rec) : r.isEmptyDataPrescan = r.isEmptyData := rfl
@@ -1854,12 +1854,9 @@ theorem lookupRecs_exact (z : Zone) (name : Name) (t : Nat) (h : ExactLookup z n
 class ANY or NONE, type not ANY.  Same verdict, same rcode as RFC 2136 §3.2.5. -/
 theorem prereq_rrset_eq_rfc_partial (c : Cfg) (z : Zone) (r : Rec)
     (hcls : r.cls = C_ANY ∨ r.cls = C_NONE) (ht : r.rtype ≠ T_ANY) (hax : r.rtype ≠ T_AXFR)
-    (hnull : r.rtype ≠ T_NULL) (hx : ExactLookup z r.name.toLowercase r.rtype) :
+    (hx : ExactLookup z r.name.toLowercase r.rtype) :
     Upd.prereqOne c z r = Rfc2136.prereqOne c z r := by
-  have hempty : r.isEmptyDataPrereq = Rfc2136.rdlengthZero r := by
-    unfold Rec.isEmptyDataPrereq Rfc2136.rdlengthZero
-    have : (r.rtype == T_NULL) = false := by simpa using hnull
-    simp [this]
+  have hempty : r.isEmptyDataPrereq = Rfc2136.rdlengthZero r := rfl
   have hl := lookupRecs_exact z r.name.toLowercase r.rtype hx ht hax
   unfold Upd.prereqOne Rfc2136.prereqOne
   simp only [hl, hempty, ht, if_false]
@@ -2041,20 +2038,21 @@ example : ExactLookup (exZone 100) (nm 97) 16 where
 example : verifyPrereqs exCfg (exZone 100)
     [{ name := nm 97, rtype := 16, cls := C_ANY, ttl := 0, rdata := .empty }] = some .nxRRSet := by decide
 
-/-- open finding `null-rdata-accepted-as-empty`: a class-ANY Update RR / prerequisite of type NULL
-with RDLENGTH > 0 counts as "empty RDATA" at all four sites; RFC 2136: FORMERR.  (The sites agree
-with each other — `prescan_empty_eq_apply_empty` — which is what keeps the journal replayable.) -/
-theorem null_rdata_accepted_cex :
+/-- fixed 4a0d3cb (was `null-rdata-accepted-as-empty`): a class-ANY Update RR / prerequisite of type
+NULL with RDLENGTH > 0 is FORMERR at the prescan and in the prerequisites, as in RFC 2136 -/
+example :
     let r : Rec := { name := nm 97, rtype := T_NULL, cls := C_ANY, ttl := 0, rdata := .bytes [1] }
-    Upd.prescanOne exCfg r = none ∧ Rfc2136.prescanOne exCfg r = some .formErr ∧
-    (applyRR exCfg (exZone 100) r).2 = some false ∧
-    Upd.prereqOne exCfg (exZone 100) r = some .nxRRSet ∧ Rfc2136.prereqOne exCfg (exZone 100) r = some .formErr := by
+    Upd.prescanOne exCfg r = some .formErr ∧ Rfc2136.prescanOne exCfg r = some .formErr ∧
+    Upd.prereqOne exCfg (exZone 100) r = some .formErr ∧ Rfc2136.prereqOne exCfg (exZone 100) r = some .formErr := by
   decide
 
-/-- open finding `maila-mailb-accepted-in-update`: `pre_scan` lets MAILB (253) / MAILA (254) through -/
-theorem maila_mailb_accepted_cex :
+/-- fixed bd6215a (was `maila-mailb-accepted-in-update`): `pre_scan` refuses MAILB (253) / MAILA (254)
+in every class -/
+example :
     let r : Rec := { name := nm 98, rtype := 253, cls := C_IN, ttl := 300, rdata := .bytes [1] }
-    Upd.prescanOne exCfg r = none ∧ Rfc2136.prescanOne exCfg r = some .formErr ∧
-    rrsetOf (applyRR exCfg (exZone 100) r).1 (nm 98, 253) = [r] := by decide
+    Upd.prescanOne exCfg r = some .formErr ∧ Rfc2136.prescanOne exCfg r = some .formErr ∧
+    Upd.prescanOne exCfg { r with rtype := 254, cls := C_NONE, ttl := 0 } = some .formErr ∧
+    Upd.prescanOne exCfg { r with rtype := 254, cls := C_ANY, ttl := 0, rdata := .empty } = some .formErr := by
+  decide
 
 end HickoryVerif.C12
